@@ -59,7 +59,7 @@ inductive FSel | first | fin (n : Nat) | afterFins | sync | move
 deriving Repr
 
 structure D where
-  cfg : Cfg := ⟨false, 0, 0, false, false, 1, true, false⟩
+  cfg : Cfg := ⟨false, 0, 0, false, false, 1, true, false, false, false⟩
   st : St := init FS.empty
   nfin : Nat := 0
   fault : Option (Fault × FSel) := none
@@ -138,13 +138,26 @@ def tfStep (d : D) (ws : List String) : String × D :=
   | ["conf", gz, rs, ri, wd, se, mif, hr] =>
     match b01 gz, rs.toNat?, ri.toInt?, b01 wd, b01 se, mif.toNat?, b01 hr with
     | some gz, some rs, some ri, some wd, some se, some mif, some hr =>
-      ("ok", { d with cfg := ⟨gz, rs, ri, wd, se, mif, hr, false⟩, st := init FS.empty, nfin := 0 })
+      ("ok", { d with cfg := ⟨gz, rs, ri, wd, se, mif, hr, false, false, false⟩, st := init FS.empty, nfin := 0 })
     | _, _, _, _, _, _, _ => ("bad-op", d)
   | ["conf", gz, rs, ri, wd, se, mif, hr, cc] =>   -- cc: Close() clears f.out after a successful move (fix F44), probed on the real code
     match b01 gz, rs.toNat?, ri.toInt?, b01 wd, b01 se, mif.toNat?, b01 hr, b01 cc with
     | some gz, some rs, some ri, some wd, some se, some mif, some hr, some cc =>
-      ("ok", { d with cfg := ⟨gz, rs, ri, wd, se, mif, hr, cc⟩, st := init FS.empty, nfin := 0 })
+      ("ok", { d with cfg := ⟨gz, rs, ri, wd, se, mif, hr, cc, false, false⟩, st := init FS.empty, nfin := 0 })
     | _, _, _, _, _, _, _, _ => ("bad-op", d)
+  -- ---- c19a block (audit 7 C5/C4): ow = the router writes body+"\n" with one Write (fix F46), sl = updateFile seals a
+  -- torn tail before appending (fix F47); both probed on the real code (harness/e8/tofile_lines_test.go)
+  | ["conf", gz, rs, ri, wd, se, mif, hr, cc, ow, sl] =>
+    match b01 gz, rs.toNat?, ri.toInt?, b01 wd, b01 se, mif.toNat?, b01 hr, b01 cc, b01 ow, b01 sl with
+    | some gz, some rs, some ri, some wd, some se, some mif, some hr, some cc, some ow, some sl =>
+      ("ok", { d with cfg := ⟨gz, rs, ri, wd, se, mif, hr, cc, ow, sl⟩, st := init FS.empty, nfin := 0 })
+    | _, _, _, _, _, _, _, _, _, _ => ("bad-op", d)
+  | ["extapp", dir, tmpl, rev, data] =>   -- another O_APPEND writer of the same plain file appends `data` with one write(2)
+    match strOfHex tmpl, rev.toNat?, unhex data with
+    | some tmpl, some rev, some data =>
+      stateLine { d with st := step d.cfg noFault d.st (.extAppend ⟨dir = "o", tmpl, rev⟩ data) false }
+    | _, _, _ => ("bad-op", d)
+  -- ---- end of c19a block ----
   | ["pre", dir, tmpl, rev, data] =>
     match strOfHex tmpl, rev.toNat?, unhex data with
     | some tmpl, some rev, some data =>
